@@ -45,10 +45,14 @@ def load_findings():
         return json.load(fh)
 
 
+CURRENT = []  # the Check objects of this process (so a late harness failure cannot swallow violations already found)
+
+
 class Check(object):
     """Collects coverage and violations for one property run."""
 
     def __init__(self, pid, tier, seed, level="model_checking"):
+        CURRENT.append(self)
         self.pid = pid
         self.tier = tier
         self.seed = seed
